@@ -14,6 +14,9 @@ CONSTANTS
   R2S <- R2Sdef_dev_cylp_span
   ZStep = 1
   CentralRule = "halfopen"
+  SpanHandling = "central"
+  ZWeight = "count"
+  Reading = "cells"
   SpanRule = "one-period"
 INVARIANT SingleCorrect
 INVARIANT PeriodicCorrect
